@@ -612,6 +612,7 @@ func runC13(c *Ctx) {
 	checkMergeRefIdGuard(c)
 	checkWithSnapshot(c)
 	checkCommentCombinedIdStable(c, "R13.8")
+	checkResolveCommentLoadError(c, "R13.9")
 	// what Resolve / ResolveComment hand out is a live instance: use refreshes its LRU position (shared with C18)
 	checkLRUAndWriteSection(c, newLockWorld(c.W))
 	checkRebuildAndCLIRemoval(c)
